@@ -1,0 +1,9 @@
+//go:build verif
+
+package client
+
+import "github.com/paulsonkoly/chess-3/tools/tuner/shim"
+
+// VerifObtainEPD runs the client's download-and-verify loop for the data file (conformance harness,
+// never in production).
+func VerifObtainEPD(info shim.EPDInfo, c shim.Client) { obtainEPD(info, c) }
